@@ -421,7 +421,7 @@ def build_trace(item):
         # TrueType glyph
         if ints and not f.curve:
             for oicl in pick((False, True), v):
-                for drop in pick((False, True), w):
+                for drop in (False, True):
                     def build():
                         pen = TTGlyphPen(gsQ if f.comp else None, outputImpliedClosingLine=oicl)
                         play(calls, pen, K)
@@ -517,7 +517,7 @@ def build_trace(item):
                 o = guarded("decompose", lambda: pt_out(lambda out: _decomp_pts(DecomposingRecordingPointPen, gsQ, rf, calls, K, out)))
                 tr.run(DECOMP, I, o, GQ, int(rf))
         if ints and not f.curve:
-            for drop in pick((False, True), w):
+            for drop in (False, True):
                 def build():
                     pen = TTGlyphPointPen(gsQ if f.comp else None)
                     play(calls, pen, K)
@@ -695,7 +695,8 @@ def run(chk):
                 "distinct by the call sequence; non-trivial = the outline has a contour with at least one segment "
                 "(two points), i.e. it draws something")
     # ---- (M) + generation -----------------------------------------------------------
-    r = chk.tlc("MC_PenProto", cfg="MC_PenProto", label="MC_PenProto exhaustive", timeout=900)
+    r = chk.tlc("MC_PenProto", cfg="MC_PenProto", label="MC_PenProto exhaustive", timeout=900,
+                env={"JAVA_TOOL_OPTIONS": "-Xss32m"})
     outlines = gen_outlines(r.stdout)
     n_exh = len(outlines)
     chk.log("MC_PenProto: %d states, %d complete outlines, laws hold, %.0fs" % (r.distinct, n_exh, r.wall))
@@ -703,8 +704,8 @@ def run(chk):
         raise MachineryError("generator produced only %d outlines" % n_exh)
     # deeper behaviours of the same machine by simulation (bigger lattice, more points, longer sequences)
     sim = chk.tlc("MC_PenProto", cfg="MC_PenProto_sim", label="MC_PenProto simulate",
-                  simulate="num=%d" % (1500 if thorough else 40), depth=16, workers=1,
-                  timeout=1500 if thorough else 300)
+                  simulate="num=%d" % (20000 if thorough else 1200), depth=30, workers=1,
+                  timeout=1500 if thorough else 300, env={"JAVA_TOOL_OPTIONS": "-Xss32m"})
     known = set(json.dumps(o, separators=(",", ":")) for o in outlines)
     deep = [o for o in gen_outlines(sim.stdout) if json.dumps(o, separators=(",", ":")) not in known]
     chk.log("simulation: %d further outlines, %.0fs" % (len(deep), sim.wall))
@@ -712,7 +713,7 @@ def run(chk):
     if thorough:
         chosen = list(range(n_exh))
     else:
-        chosen = sorted(chk.rng.sample(range(n_exh), min(n_exh, 3500)))
+        chosen = sorted(chk.rng.sample(range(n_exh), min(n_exh, 4500)))
         deep = sorted(chk.rng.sample(deep, min(len(deep), 2500)), key=lambda o: json.dumps(o))
     level = 2 if thorough else 0
     items = [(12, outlines[i], {"src": "exhaustive", "n": i}, i + chk.seed, level) for i in chosen]
